@@ -417,6 +417,16 @@ def _parse_event_rules(fn: Function, rep: Report) -> None:
             if isinstance(c.func, ast.Attribute) and c.func.attr == "join" and c.args and isinstance(c.args[0], ast.Name):
                 sep = const_str(c.func.value)
                 data_var = c.args[0].id
+                # ... and is handed to the event unchanged: no method applied to the joined text (strip / rstrip / replace ... would drop or
+                # alter a payload that legitimately ends in line breaks)
+                wrappers = [x for x in ast.walk(PL.inline(r)) if isinstance(x, ast.Call) and isinstance(x.func, ast.Attribute) and x.func.attr != "join"
+                            and any(y is c or (isinstance(y, ast.Call) and ast.dump(y) == ast.dump(c)) for y in ast.walk(x.func.value))]
+                if wrappers:
+                    rep.violation("R18.3", sub0 + " joined data unchanged", f"{fn.fq}|joined-data-transformed|{wrappers[0].func.attr}",
+                                  f"the joined data is passed through `.{wrappers[0].func.attr}(...)` before it becomes the event's data: e.g. trailing empty data "
+                                  "lines of an event are lost", fn.loc(r))
+                else:
+                    rep.ok("R18.3", sub0 + " joined data unchanged", "the event's data is exactly the joined data lines", fn.loc(r))
                 if sep == "\n":
                     rep.ok("R18.3", sub0 + " data joined with newline", 'multi-line data joined with the constant "\\n"', fn.loc(c))
                 else:
